@@ -36,7 +36,10 @@ def main():
     base = f"/tmp/seedrun_{os.getpid()}"
     os.makedirs(base, exist_ok=True)
     lean_copy = os.path.join(base, "lean")
-    subprocess.run(["rsync", "-a", "--exclude", ".build.lock", os.path.join(VERIF, "lean") + "/", lean_copy + "/"], check=True)
+    for attempt in range(3):  # files may vanish while someone else is building (rsync exit 24): retry
+        r = subprocess.run(["rsync", "-a", "--exclude", ".build.lock", os.path.join(VERIF, "lean") + "/", lean_copy + "/"])
+        if r.returncode == 0:
+            break
     results = []
     try:
         for sd in a.seeds:
